@@ -47,6 +47,15 @@ const SITE_NAMES: &[&str] = &[
     "ProbeColspanRemap",
     "ProbeFragAttach",
     "ProbeTextMerge",
+    "ProbeReparent",
+    "ProbeRemoveFromParent",
+    "ProbeAddAttrs",
+    "ProbeTemplate",
+    "ProbeFosterParent",
+    "ProbeInsertChild",
+    "ProbeRuleMatched",
+    "ProbeDisplayNone",
+    "ProbeNthChild",
 ];
 
 #[derive(Serialize, Deserialize, Default, Clone)]
